@@ -134,6 +134,8 @@ def typecheck(n):
         n.exact = kx[0] if kx else True
     if k == "any":
         need(kx[0], "any_sender_of<Val> needs a child that sends exactly Val")
+    if k == "when_any":
+        need(all(kx), "children of when_any must all send exactly Val / nothing in this harness")
     n.vt = vt
     return vt
 
